@@ -91,6 +91,10 @@ class HarnessError(Exception):
     """The harness itself could not do its job (never reported as success)."""
 
 
+class Starved(HarnessError):
+    """No dispatch went through the wrappers (a run that returns at once looks the same as lost instrumentation)."""
+
+
 class RunTimeout(BaseException):
     """Raised by SIGALRM inside a run that does not return."""
 
